@@ -20,6 +20,7 @@ import (
 	"github.com/failsafe-go/failsafe-go/failsafehttp"
 	"github.com/failsafe-go/failsafe-go/fallback"
 	"github.com/failsafe-go/failsafe-go/hedgepolicy"
+	"github.com/failsafe-go/failsafe-go/retrypolicy"
 	"github.com/failsafe-go/failsafe-go/timeout"
 	"github.com/failsafe-go/failsafe-go/verifrt/vcontext"
 	"github.com/failsafe-go/failsafe-go/verifrt/vrt"
@@ -103,23 +104,45 @@ type attemptRec struct {
 }
 
 type fakeTransport struct {
-	script []srvStep
-	recs   []*attemptRec
+	script   []srvStep
+	recs     []*attemptRec
+	inflight int
 }
+
+//go:norace
+func (t *fakeTransport) track(d int) { t.inflight += d }
+
+//go:norace
+func (t *fakeTransport) busy() bool { return t.inflight > 0 }
 
 func (t *fakeTransport) RoundTrip(req *http.Request) (*http.Response, error) {
 	vrt.EnterUser()
 	defer vrt.ExitUser()
+	t.track(1)
+	defer t.track(-1)
 	rec := &attemptRec{Method: req.Method, URL: req.URL.String(), Header: req.Header.Clone(), At: vrt.Elapsed(), Ctx: req.Context()}
 	rec.CallerVal = req.Context().Value(callerKey)
 	rec.Deadline, rec.HasDeadline = req.Context().Deadline()
 	k := len(t.recs)
 	t.recs = append(t.recs, rec)
+	step := t.script[min(k, len(t.script)-1)]
 	if req.Body != nil {
-		rec.Body, rec.BodyErr = io.ReadAll(req.Body)
+		// the server reads the first bytes, is slow (other attempts may start meanwhile), then reads the rest
+		head := make([]byte, 4)
+		n, err := io.ReadFull(req.Body, head)
+		rec.Body = append(rec.Body, head[:n]...)
+		if err == nil {
+			if step.Think > 0 {
+				vrt.Sleep(int64(step.Think / 2))
+			}
+			var rest []byte
+			rest, rec.BodyErr = io.ReadAll(req.Body)
+			rec.Body = append(rec.Body, rest...)
+		} else if err != io.EOF && err != io.ErrUnexpectedEOF {
+			rec.BodyErr = err
+		}
 		req.Body.Close()
 	}
-	step := t.script[min(k, len(t.script)-1)]
 	if step.Think > 0 {
 		tm := vrt.NewTimer(int64(step.Think), false)
 		switch vrt.Select(false, vrt.R(tm.C), vrt.R(req.Context().Done())) {
@@ -291,6 +314,10 @@ func (c httpCase) run() func() {
 			resp, err = failsafehttp.NewRoundTripperWithExecutor(ft, ex).RoundTrip(req)
 		}
 		done := vrt.Elapsed()
+		// losing hedge attempts may still be talking to the server: let them finish before judging
+		for i := 0; ft.busy() && i < 100; i++ {
+			vrt.Sleep(int64(50 * time.Millisecond))
+		}
 		var got []byte
 		var readErr error
 		if resp != nil && resp.Body != nil {
@@ -298,7 +325,7 @@ func (c httpCase) run() func() {
 			resp.Body.Close()
 		}
 		_ = start
-		vrt.Mark(fmt.Sprintf("attempts=%d err=%v status=%v read=%q readErr=%v t=%d", len(ft.recs), err, respStatus(resp), got, readErr, done))
+		vrt.Mark(fmt.Sprintf("attempts=%d err=%s status=%v read=%q readErr=%v t=%d", len(ft.recs), errShort(err), respStatus(resp), got, readErr, done))
 		// the caller is done with the call: it releases its own contexts, as callers do
 		if c.reqCtx == "cancelled-later" {
 			// keeps its context alive (e.g. a long-lived server context): nothing may depend on it ending
@@ -313,6 +340,23 @@ func (c httpCase) run() func() {
 			vrt.Fail(msg)
 		}
 	}
+}
+
+// errShort renders an error without pointer values (an ExceededError prints its *http.Response).
+func errShort(err error) string {
+	if err == nil {
+		return "nil"
+	}
+	var ee retrypolicy.ExceededError
+	if errors.As(err, &ee) {
+		return fmt.Sprintf("retries exceeded (last status %v, last error %v)", respStatus(asResp(ee.LastResult)), ee.LastError)
+	}
+	return err.Error()
+}
+
+func asResp(x any) *http.Response {
+	r, _ := x.(*http.Response)
+	return r
 }
 
 func respStatus(r *http.Response) any {
@@ -455,6 +499,8 @@ func c18Cases(tier string) []httpCase {
 		{{Err: errors.New("unsupported protocol scheme \"foo\"")}},
 		{{Status: 200, Body: "streamed response", Stream: 10 * time.Millisecond}},
 		{{Status: 500, Body: "e", Think: 5 * time.Millisecond}, {Status: 200, Body: "after think", Think: 5 * time.Millisecond, Stream: 5 * time.Millisecond}},
+		// a server slower than the hedge delay: attempts overlap while the first is still sending its body
+		{{Status: 200, Body: "slow", Think: 300 * time.Millisecond}, {Status: 200, Body: "fast", Think: time.Millisecond}},
 	}
 	if tier != "thorough" {
 		// quick: all pairs rather than the full product: every body x context kind on a retrying
